@@ -70,6 +70,14 @@ func stPrograms(kinds []*hkind) []stProg {
 	return ps
 }
 
+// with two replies the first one is a zero-byte message (an empty body is still a message)
+func stReplyPayload(p stProg, i int) []byte {
+	if p.ns == 2 && i == 0 {
+		return []byte{}
+	}
+	return []byte(fmt.Sprintf("reply-%d", i))
+}
+
 func runStProg(t *testing.T, reg *tokReg, p stProg) (sent []int64, obs string) {
 	bubble(t, func(t *testing.T) {
 		cmds := make(chan string)
@@ -84,7 +92,7 @@ func runStProg(t *testing.T, reg *tokReg, p stProg) (sent []int64, obs string) {
 						var m wrapperspb.BytesValue
 						ss.RecvMsg(&m)
 					case "send":
-						ss.SendMsg(bv([]byte(fmt.Sprintf("reply-%d", n))))
+						ss.SendMsg(bv(stReplyPayload(p, n)))
 						n++
 					}
 					acks <- struct{}{}
@@ -123,7 +131,7 @@ func runStProg(t *testing.T, reg *tokReg, p stProg) (sent []int64, obs string) {
 		for i := 0; i < p.ns; i++ {
 			cmds <- "send"
 			<-acks
-			sent = append(sent, reg.payloadTok([]byte(fmt.Sprintf("reply-%d", i))))
+			sent = append(sent, reg.payloadTok(stReplyPayload(p, i)))
 			synctest.Wait()
 		}
 		if p.closed {
